@@ -8,9 +8,17 @@
                 own state, and after every operation the projection of the model state and the
                 GotConn facts are compared with what the real Transport showed.
    DemuxCase  : frames written by the origin on one multiplexed connection in wire order, and
-                what every caller received; [demux] must give each caller exactly its body. *)
+                what every caller received; [demux] must give each caller exactly its body.
+   H2SnapCase : a lock-consistent snapshot of the REAL HTTP/2 pool (VerifH2PoolSnapshot) taken
+                while callers run; [h2snap_ok] (proved for every reachable state of Model/H2Pool.v
+                in which the peer never lowered MAX_CONCURRENT_STREAMS) is evaluated on it.
+   H2ReplayCase : a deterministic forced-HTTP/2 scenario replayed through [h2_step]; after every
+                operation the stream ids, reservations and nextStreamID of every pooled
+                connection are compared with the real pool.
+   H3SnapCase : useCounts of the REAL HTTP/3 client cache with the harness's upper bound on
+                requests in flight ([h3snap_ok]). *)
 From Coq Require Import List Arith Bool ZArith.
-From ReqV Require Export Lib.Bytes Model.Pool Model.Demux.
+From ReqV Require Export Lib.Bytes Model.Pool Model.Demux Model.H2Pool Model.H3Cache.
 Import ListNotations.
 
 Inductive op :=
@@ -117,10 +125,81 @@ Fixpoint replay (cfg : config) (df ks : list key) (s : state) (steps : list (op 
 (* run-length notation used by the harness for long runs of one byte (exact, see coqRLE) *)
 Definition rep (n : N) (b : byte) : bytes := repeat b (N.to_nat n).
 
+(* ---------- deterministic HTTP/2 scenarios (forced HTTP/2: GetClientConn with dialOnMiss) ---------- *)
+
+Inductive h2op :=
+| P2Start                 (* a request to the (single) authority enters RoundTrip and reaches the origin *)
+| P2Finish (r : rid)      (* the origin answers request r and the caller reads the body to the end *)
+| P2CloseIdle.            (* Transport.CloseIdleConnections *)
+
+(* per pooled connection, in p.conns order: stream ids (any order), streamsReserved, nextStreamID *)
+Definition h2obs := list (list nat * nat * nat).
+
+(* the next lock region some goroutine can enter without a new API call; [m] is the
+   MAX_CONCURRENT_STREAMS the origin announces in its first SETTINGS frame *)
+Definition h2_runnable (m : nat) (s : h2state) : option h2event :=
+  match find_lt (fun cl => match call_res s cl with None => true | Some _ => false end) (n_call s) with
+  | Some cl => Some (H2DialDone cl true)
+  | None =>
+  match find_lt (fun c => negb (Nat.eqb (c_max s c) m)) (n_cid s) with
+  | Some c => Some (H2Settings c m)
+  | None =>
+  match find_lt (fun r => match r_phase s r with RWaitDial _ _ => true | _ => false end) (n_rid s) with
+  | Some r => Some (H2Wake r true)
+  | None =>
+  match find_lt (fun r => match r_phase s r with RScan _ => true | _ => false end) (n_rid s) with
+  | Some r => Some (H2Rescan r)
+  | None =>
+  match find_lt (fun r => match r_phase s r with RReserved _ => true | _ => false end) (n_rid s) with
+  | Some r => Some (H2Open r true)
+  | None =>
+  match find_lt (fun c => c_closed s c && in_pool s c) (n_cid s) with
+  | Some c => Some (H2ConnLost c)
+  | None => None
+  end end end end end end.
+
+Fixpoint h2_settle (m : nat) (fuel : nat) (s : h2state) : h2state :=
+  match fuel with
+  | 0 => s
+  | S f => match h2_runnable m s with
+           | None => s
+           | Some e => h2_settle m f (h2_step s e)
+           end
+  end.
+
+Definition h2_apply (m : nat) (s : h2state) (o : h2op) : h2state :=
+  h2_settle m 64
+    (match o with
+     | P2Start => h2_step s (H2Get 0)
+     | P2Finish r => h2_step s (H2End r true)
+     | P2CloseIdle => h2_step s H2CloseIdle
+     end).
+
+Definition same_set (a b : list nat) : bool :=
+  Nat.eqb (length a) (length b) && forallb (fun x => memb x b) a && forallb (fun x => memb x a) b.
+
+Definition h2obs_match (s : h2state) (o : h2obs) : bool :=
+  list_eqb (fun c (ob : list nat * nat * nat) =>
+              let '(ids, res, nxt) := ob in
+              same_set (map fst (c_streams s c)) ids && Nat.eqb (c_reserved s c) res &&
+              Nat.eqb (c_next s c) nxt)
+           (p_conns s 0) o.
+
+Fixpoint h2_replay (m : nat) (s : h2state) (steps : list (h2op * h2obs)) : bool :=
+  match steps with
+  | [] => negb (h2_panicked s)
+  | (o, ob) :: rest =>
+      let s' := h2_apply m s o in
+      h2obs_match s' ob && h2snap_ok (h2snap_of s' [0]) && h2_replay m s' rest
+  end.
+
 Inductive c09_case :=
 | SnapCase (cfg : config) (sn : snapshot)
 | ReplayCase (cfg : config) (ks dial_fail : list key) (steps : list (op * observed))
-| DemuxCase (open : list sid) (wire : list (sid * bytes)) (received : list (sid * bytes)).
+| DemuxCase (open : list sid) (wire : list (sid * bytes)) (received : list (sid * bytes))
+| H2SnapCase (ks : list h2key_snap)
+| H2ReplayCase (maxconc : nat) (steps : list (h2op * h2obs))
+| H3SnapCase (inflight_upper : nat) (uses : list Z).
 
 Definition c09_check (c : c09_case) : bool :=
   match c with
@@ -128,4 +207,7 @@ Definition c09_check (c : c09_case) : bool :=
   | ReplayCase cfg ks df steps => replay cfg df ks init steps
   | DemuxCase open wire received =>
       forallb (fun r => bytes_eqb (concat (demux open wire (fst r))) (snd r)) received
+  | H2SnapCase ks => h2snap_ok ks
+  | H2ReplayCase m steps => h2_replay m h2_init steps
+  | H3SnapCase n uses => h3snap_ok n uses
   end.
